@@ -363,6 +363,27 @@ def run(ctx, rep) -> None:
         ok = f.module.name == "stabilize.handlers.jump_to_stage.handler" and (tgt_ == "target_stage.context" or applied)
         rep.check(ok, "C03.R6", f"_jump_bypass written in {f.qualname}", "only the jump handler sets it, on the explicit jump target", f.file, n.lineno, disc=f"bypass-writer:{f.qualname}")
     rep.floor("_jump_bypass writers", len(seen_w), 1)
+    # every dict that a jump applies to a stage OTHER than the target (source stage, skipped stages, synthetic children) has a
+    # literal key set without `_jump_bypass`: a bypass marker on any other stage lets its next StartStage skip the join test
+    jh = prog.func("stabilize.handlers.jump_to_stage.handler", "JumpToStageHandler._handle_with_retry.on_stage")
+    n_upd = 0
+    for g_ in ast.walk(jh.node):
+        if not (isinstance(g_, ast.FunctionDef) and g_.name.startswith("mutate") and g_.name != "mutate_target"):
+            continue
+        params = g_.args.args
+        for p_, d_ in zip(params[len(params) - len(g_.args.defaults):], g_.args.defaults):
+            if not any(isinstance(c_, ast.Call) and norm(c_.func).endswith(".context.update") and c_.args and norm(c_.args[0]) == p_.arg for c_ in ast.walk(g_)):
+                continue
+            n_upd += 1
+            src_defs = [a_.value for a_ in ast.walk(jh.node) if isinstance(a_, ast.Assign) and norm(a_.targets[0]) == norm(d_)] if isinstance(d_, ast.Name) else [d_]
+            keys = None
+            if len(src_defs) == 1 and isinstance(src_defs[0], ast.Dict) and all(isinstance(k_, ast.Constant) for k_ in src_defs[0].keys):
+                keys = {k_.value for k_ in src_defs[0].keys}
+            ok = keys is not None and "_jump_bypass" not in keys
+            rep.check(ok, "C03.R6", f"{g_.name}: the keys a jump writes onto a stage other than its target never include _jump_bypass", f"literal keys {sorted(keys)}" if ok else
+                      f"`{norm(d_)}` = `{norm(src_defs[0])[:110] if src_defs else '?'}` is not a literal key set (or contains _jump_bypass): the bypass marker can reach the jump's SOURCE stage, whose next StartStage "
+                      "(a fan-in re-armed by a backward jump) then starts without waiting for its other upstreams", jh.file, g_.lineno, disc=f"bypass-leak:{g_.name}")
+    rep.floor("jump mutations that update another stage's context", n_upd, 1)
     seen_c = set()
     for f, n in plan_callers:
         if (f.qualname, n.lineno) in seen_c:
